@@ -7,7 +7,7 @@ for d in seeded/*/; do
   name=$(basename "$d")
   [ -n "$1" ] && [[ "$name" != $1* ]] && continue
   ids=$(python3 -c "import json; print(' '.join(json.load(open('$d/meta.json'))['caught_by']))")
-  [ -z "$ids" ] && { echo "OBSOLETE $name (no longer breaks a property on the repaired tree)"; continue; }
+  [ -z "$ids" ] && { echo "SKIPPED $name (obsolete or recorded as not caught, see meta.json)"; continue; }
   out=$(./tools/try_seed.sh "$PWD/$d/patch.diff" -- $ids 2>&1)
   suite=$(echo "$out" | grep "== suite" | grep -c "509 passed")
   for p in $ids; do
